@@ -132,7 +132,7 @@ def run(tier, seed):
                 p = {"id": "m%d-%d" % (si, k), "mode": "read", "layer": "tpkt", "stream": s}
                 p.update(sc)
                 plans.append(p)
-        nrand = 1500 if tier == "quick" else 100000
+        nrand = 1500 if tier == "quick" else 400000
         for i in range(nrand):
             fs = [rand_frame(rng) for _ in range(rng.randint(1, 4))]
             s = [b for f in fs for b in f]
